@@ -102,6 +102,22 @@ def entry(B, cfg):
             m.fix_parameters({nm[cfg['fix']]: theta[cfg['fix']]})
             free = theta[:cfg['fix']] + theta[cfg['fix'] + 1:]
         kw = {'covariates': ps.arr(B, [covs])} if covs else {}
+        if covs and cfg.get('cov_rows'):
+            # one covariate row per sampled individual (row 2 = row 1 + 1:
+            # the shifted scales stay positive for non-negative coefficients
+            # of the scale, which the support assumptions below require)
+            rows = [list(covs), [c + 1 for c in covs]]
+            c0 = 0
+            for q, u in enumerate(units):
+                thm, beta = per_dim[q]
+                if not ps.is_delta(u['kind']):
+                    for j in range(u['n_dim']):
+                        sg = thm[1][j]
+                        for c in range(u['cov']):
+                            sg = sg + beta[u['n_dim'] + j][c] * rows[1][c0 + c]
+                        B.assume(sg > 0)
+                c0 += u['cov']
+            kw = {'covariates': ps.arr(B, rows)}
         return lambda seed: m.sample(ps.arr(B, free), n_samples=2, seed=seed,
                                      **kw)
     if kind == 'predictive':
@@ -288,6 +304,10 @@ def jobs(tier):
                             bare=(len(u) == 1)))
     entries.append(dict(entry='pop', units=[U('gaussian'), U('pooled')],
                         fix=0))
+    for u in ([U('gaussian', 1, 1)], [U('lognormal', 1, 1), U('truncgauss')],
+              [U('gaussian_nc', 1, 2), U('gaussian')]):
+        entries.append(dict(entry='pop', units=u, bare=(len(u) == 1),
+                            cov_rows=True))
     entries += [dict(entry='predictive'), dict(entry='predictive', df=False),
                 dict(entry='population_predictive',
                      units=[U('gaussian'), U('lognormal')]),
